@@ -213,3 +213,59 @@ var ruleErrFirst = &Rule{
 }
 
 func init() { register(ruleErrFirst) }
+
+// R-ERRDISCARD (C03, C04): the parser does not throw a conversion error away.
+//
+// `$$, _ = strconv.Atoi($1)` turns every spelling Atoi does not understand
+// (0x2, 1_0) into level 0 without a word. In package parser (the lexer and the
+// compiled grammar actions) no call returning (value…, error) has its error
+// result left unread while a value result is used.
+var ruleErrDiscard = &Rule{
+	Name: "R-ERRDISCARD", NeedSSA: true,
+	Doc: "in package parser (lexer and compiled grammar actions) every call returning (value…, error) whose value is used also has its error result read: a discarded error turns a spelling the conversion rejects into the zero value, silently",
+	Run: func(p *Prog) *RuleOut {
+		out := newOut("R-ERRDISCARD")
+		n := 0
+		for fn := range p.AllFns {
+			if fnPkgPath(fn) != pkgParser || fn.Blocks == nil {
+				continue
+			}
+			ord := ordinals{}
+			for _, b := range fn.Blocks {
+				for _, ins := range b.Instrs {
+					c, ok := ins.(*ssa.Call)
+					if !ok {
+						continue
+					}
+					sig := calleeSig(c)
+					if sig == nil || sig.Results().Len() < 2 || !lastIsError(sig) {
+						continue
+					}
+					n++
+					if ev := extractOf(c, sig.Results().Len()-1); ev != nil && len(*ev.Referrers()) > 0 {
+						continue
+					}
+					used := false
+					for i := 0; i < sig.Results().Len()-1; i++ {
+						if v := extractOf(c, i); v != nil && len(*v.Referrers()) > 0 {
+							used = true
+						}
+					}
+					if !used {
+						continue
+					}
+					cn := calleeName(&c.Call)
+					out.viol(fmt.Sprintf("%s: error of %s discarded #%d", fnName(fn), cn, ord.next(cn)), p.pos(c.Pos()), fnName(fn), "the value of "+cn+" is used but its error is never read: input the conversion rejects becomes the zero value without an error")
+				}
+			}
+		}
+		out.Counts["value_error_calls_in_the_parser"] = n
+		out.Floors["value_error_calls_in_the_parser"] = 3
+		if len(out.Obs) == 0 {
+			out.ok("conversion errors are read", "path/parser", "", fmt.Sprintf("%d calls returning (value, error): every error result is read", n))
+		}
+		return out
+	},
+}
+
+func init() { register(ruleErrDiscard) }
